@@ -70,7 +70,7 @@ $(B)/sim/%.o: sim/%.cpp $(SIM_HDRS)
 	@mkdir -p $(dir $@)
 	$(CXX) $(CXXFLAGS_COMMON) -MMD -MP -c $< -o $@
 
-$(B)/eng/%.o: engines/%.cpp $(SIM_HDRS)
+$(B)/eng/%.o: engines/%.cpp $(SIM_HDRS) $(wildcard engines/*.h)
 	@mkdir -p $(dir $@)
 	$(CXX) $(CXXFLAGS_COMMON) -MMD -MP -c $< -o $@
 
@@ -79,8 +79,8 @@ SIM_OBJS := $(B)/sim/core.o $(B)/sim/alloc.o
 $(B)/sim_objs: $(B)/eng/sim_objs.o $(SIM_OBJS)
 	$(CXX) $(LDFLAGS_COMMON) -o $@ $^
 
-$(B)/sim_hist: $(B)/eng/sim_hist.o $(SIM_OBJS) $(B)/libgama.a
-	$(CXX) $(LDFLAGS_COMMON) -o $@ $(B)/eng/sim_hist.o $(SIM_OBJS) $(B)/libgama.a $(EXPAT)
+$(B)/sim_hist: $(B)/eng/sim_hist.o $(B)/eng/hist_net.o $(SIM_OBJS) $(B)/libgama.a
+	$(CXX) $(LDFLAGS_COMMON) -o $@ $(B)/eng/sim_hist.o $(B)/eng/hist_net.o $(SIM_OBJS) $(B)/libgama.a $(EXPAT)
 
 $(B)/sim_io: $(B)/eng/sim_io.o $(SIM_OBJS) $(B)/emu/gama-local.o $(B)/emu/gama-g3.o $(B)/emu/compare-xyz.o $(B)/libgama.a
 	$(CXX) $(LDFLAGS_COMMON) -o $@ $(B)/eng/sim_io.o $(SIM_OBJS) $(B)/emu/gama-local.o $(B)/emu/gama-g3.o $(B)/emu/compare-xyz.o $(B)/libgama.a $(EXPAT)
